@@ -499,10 +499,11 @@ class Doist(tyming.Tymist):
             doers is list of doers to add as extension.
 
         """
-        doers = [doer for doer in doers if doer not in self.doers] # ensure unique
-        deeds = self.enter(doers=doers)  # provide fresh deeds for new doers
-        self.doers.extend(doers)
-        self.deeds.extend(deeds)
+        for doer in doers:  # one at a time so prior stay registered if later enter raises
+            if doer not in self.doers:  # ensure unique, also within doers
+                deeds = self.enter(doers=[doer])  # provide fresh deeds for new doer
+                self.doers.append(doer)
+                self.deeds.extend(deeds)
 
 
     def remove(self, doers):
@@ -1374,10 +1375,11 @@ class DoDoer(Doer):
             doers is list of doers to add as extension.
 
         """
-        doers = [doer for doer in doers if doer not in self.doers] # ensure unique
-        deeds = self.enter(doers=doers)  # provide fresh deeds for new doers
-        self.doers.extend(doers)
-        self.deeds.extend(deeds)
+        for doer in doers:  # one at a time so prior stay registered if later enter raises
+            if doer not in self.doers:  # ensure unique, also within doers
+                deeds = self.enter(doers=[doer])  # provide fresh deeds for new doer
+                self.doers.append(doer)
+                self.deeds.extend(deeds)
 
 
     def remove(self, doers):
